@@ -208,10 +208,16 @@ def task_symbolic_nodes(ctx, rname, n):
   conf = dict(routine=rname, n=n, nodes='symbolic, gaps >= 1e-3, in [-2,2]')
   eps = Q(1e-9)
   close = lambda a, b: z3.And(a - b <= eps, b - a <= eps)
-  decide(ctx, 'symbolic_nodes.value_at_nodes', conf, pre, z3.Or(*[z3.And(xv == nodes[i], z3.Not(close(r, f[i]))) for i in range(n)]), timeout=120000)
+  # one query per node / per cell, with the comparison atoms of the interpolation term decided under the cell assumption first (atom specialisation):
+  # a single query over all cells is decided too, but z3's non-linear engine needs between 1 s and > 500 s for it depending on its random seed
+  for i in range(n):
+    at = [xv == nodes[i]]
+    decide(ctx, 'symbolic_nodes.value_at_nodes', dict(conf, node=i), pre + at, z3.Not(close(r, f[i])), timeout=120000, spec=pre[:n - 1] + at)
   a, b = z3.Real('a'), z3.Real('b')
   aff = [f[i] == a + b * nodes[i] for i in range(n)] + [a >= -1, a <= 1, b >= -1, b <= 1]
-  decide(ctx, 'symbolic_nodes.exact_on_affine_data_inside', conf, pre + aff + [xv >= nodes[0], xv <= nodes[-1]], z3.Not(close(r, a + b * xv)), timeout=120000)
+  for i in range(n - 1):
+    cell = [xv >= nodes[i], xv <= nodes[i + 1]]
+    decide(ctx, 'symbolic_nodes.exact_on_affine_data_inside', dict(conf, cell=i), pre + aff + cell, z3.Not(close(r, a + b * xv)), timeout=120000, spec=pre[:n - 1] + cell)
 
 
 def _intervals(lo, hi, points):
